@@ -895,6 +895,20 @@ def c10_r3(ctx):
                 ctx.viol((f.id, "restore-args"), "the restore is not (remembered ticket -> this target's path)", c.where)
             else:
                 ctx.ok()
+            # lifted through every caller, the ticket is the history's remembered entry (get_info of
+            # the looked-up vector), never the per-path file state of the blob
+            for t in to:
+                for (fid, lo) in ctx.P.lift(f, t):
+                    ctx.inst("restored ticket comes from", "%s: %s" % (fid, fmt_origin(lo)))
+                    if lo[0][0] == "call" and lo[0][3] == "blob::FileStateVec::get_info" and lo[-1] == ("field", "ticket"):
+                        ctx.ok()
+                    else:
+                        ctx.viol((fid, "restore-foreign-ticket"), "a target is restored from the cache entry named by something other than the remembered hash of the history lookup (derives from %s): after a clean the wrong version - or nothing - is brought back" % fmt_origin(lo), c.where)
+        for d in f.calls_to(DL_RESTORE):
+            for t in f.origins_of_operand(d.args[1]):
+                for (fid, lo) in ctx.P.lift(f, t):
+                    if not (lo[0][0] == "call" and lo[0][3] == "blob::FileStateVec::get_info" and lo[-1] == ("field", "ticket")):
+                        ctx.viol((fid, "download-foreign-ticket"), "a target is downloaded under a name other than the remembered hash (derives from %s)" % fmt_origin(lo), d.where)
         for d in f.calls_to(DL_RESTORE):
             done = f.edges_of_call_variant(d, "Done")
             sx = sys_calls(f, "set_is_executable")
@@ -1101,21 +1115,48 @@ def _result_variants(f, starts):
 
 @rule("C06.R3b", floor=2)
 def c06_r3b(ctx):
-    """Absence of a cache entry is never an error for a rule thread: the restore's NotThere
-    is built on the false edge of the entry's existence test, and its caller maps NotThere
-    to 'try the next source, else NeedsRebuild', never to Err."""
+    """Absence of a cache entry is never an error for a rule thread: a sibling thread may
+    legally take or replace an entry at any moment, so in code reachable from a rule thread
+    no `absent` edge of an existence test on an entry path (<cache dir>/<ticket>) may lead
+    to a hard-error result; the restore's NotThere is mapped by its caller to `try the next
+    source, else NeedsRebuild`, never to Err."""
+    R = Roles(ctx.P)
+    thread_reach = set()
+    for (pf, cs, cl) in R.spawns():
+        thread_reach |= ctx.P.reachable_fns([cl.id])
+    HARD = {"Err", "SystemError", "CacheDirectoryMissing"}
+    for fid in sorted(thread_reach):
+        f = ctx.P.fns[fid]
+        if f.body.get("in_test") or is_real_system(f):
+            continue
+        for g in sys_calls(f, "is_file", "is_dir"):
+            cls = classify_path_operand(ctx.P, f, g.args[1])
+            if not (cls and all(x.startswith("rulerdir:cache::SysCache/+") for x in cls)):
+                continue
+            ctx.inst("existence test on a cache entry in %s" % f.id, g.where)
+            fe = [x for (_, x) in f.bool_edges_of_call(g, False)]
+            # results decided on the absent edge before any further file-system operation
+            rv = set()
+            seen = set()
+            work = list(fe)
+            while work:
+                b = work.pop()
+                if b in seen:
+                    continue
+                seen.add(b)
+                for st in f.blocks[b]["stmts"]:
+                    if st["k"] == "assign" and st["place"]["local"] == 0 and not st["place"]["proj"] and st["rv"]["k"] == "aggregate" and st["rv"]["kind"]["k"] == "adt":
+                        rv.add(st["rv"]["kind"]["variant"])
+                if b in f.call_at and (f.call_at[b].trait == SYS or call_effects(ctx.P, f.call_at[b])):
+                    continue        # a further operation decides
+                work.extend(f.succ[b])
+            if rv & HARD:
+                ctx.viol((f.id, "absent-entry-is-error", g.name), "finding a cache entry absent yields a hard error (%s): a sibling rule thread that needs the same bytes may have taken the entry, so verdict and final files depend on scheduling" % sorted(rv & HARD), g.where)
+            else:
+                ctx.ok()
     f = ctx.P.fn(RESTORE)
     nts = f.constructs("cache::RestoreResult", "NotThere")
     ctx.need(nts, "RestoreResult::NotThere construction")
-    for (bb, idx, rv, pl) in nts:
-        ctx.inst("NotThere", f.where(bb, idx))
-        ctx.ok()
-    # false edge of is_file(entry) must lead to NotThere, not to an error variant
-    for g in sys_calls(f, "is_file"):
-        fe = [x for (_, x) in f.bool_edges_of_call(g, False)]
-        rv = _result_variants(f, fe)
-        if rv != {"NotThere"}:
-            ctx.viol((f.id, "absent-entry-is-error"), "a missing cache entry yields %s instead of NotThere" % sorted(rv), g.where)
     for cs in ctx.P.callers.get(RESTORE, []):
         g = cs.fn
         if g.body.get("in_test"):
